@@ -266,6 +266,12 @@ class EncodeState:
             self.emplace_bytes(b'')
             return
 
+        if bit_length > 64 and base_data_type in (DataType.A_INT32, DataType.A_UINT32):
+            # the accelerated version of bitstruct does not support
+            # integers of more than 64 bits
+            odxraise(f"Integer objects must not exhibit more than 64 bits (is: {bit_length})",
+                     EncodeError)
+
         format_char = base_data_type.bitstruct_format_letter
         padding = (8 - ((bit_length + self.cursor_bit_position) % 8)) % 8
         odxassert((0 <= padding and padding < 8 and
